@@ -1,9 +1,17 @@
 package main
 
 import (
+	"crypto/sha1"
+	"encoding"
+	"encoding/json"
 	"fmt"
+	"os"
+	"os/exec"
+	"path/filepath"
 	"reflect"
+	"strconv"
 	"strings"
+	"sync"
 
 	crypthash "github.com/sergeymakinen/go-crypt/hash"
 )
@@ -108,7 +116,7 @@ func runHistOp(op histOp, types []reflect.Type) histResult {
 	}
 	dump := ""
 	if err == nil && pan == nil {
-		dump = fmt.Sprintf("%+v", reflect.Indirect(reflect.Indirect(val)).Interface())
+		dump = stableDump(val)
 	}
 	res.text = fmt.Sprintf("%s|%T|%v|%v", dump, err, err, pan)
 	sdv := "None"
@@ -137,54 +145,37 @@ func corrC18(outDir string, seed uint64, tier string, replay string) *report {
 		nHist, nOps = 60, 200
 	}
 	formNames := []string{"ByVal", "ByPtr", "ByPtrPtr"}
+	// the same histories run in reverse order in a fresh process (package state that no hook resets cannot hide there)
+	reversed := c18Reversed(seed, tier, outDir, rep)
 	for hI := 0; hI < nHist; hI++ {
-		// a pool of 12 types: wild (incl. invalid tags and conflicts), class, hand shapes
-		var gts []*gType
-		var types []reflect.Type
-		for i := 0; i < 5; i++ {
-			g := genWild(r)
-			gts, types = append(gts, g), append(types, g.t)
-		}
-		for i := 0; i < 4; i++ {
-			g := genClass(r)
-			gts, types = append(gts, g), append(types, g.t)
-		}
-		for _, t := range []reflect.Type{reflect.TypeOf(ShapeConflict{}), reflect.TypeOf(ShapeText{}), reflect.TypeOf(ShapeShadow{})} {
-			gts, types = append(gts, nil), append(types, t)
-		}
-		var ops []histOp
-		var strs []string
-		for k := 0; k < nOps; k++ {
-			op := histOp{ty: r.intn(len(types)), form: r.intn(3)}
-			if r.intn(2) == 0 || len(strs) == 0 {
-				op.marshal = true
-				if gts[op.ty] != nil {
-					op.val = genValue(r, gts[op.ty], r.intn(4) == 0)
-				} else {
-					op.val = reflect.New(types[op.ty])
-					fillAny(r, op.val.Elem(), r.intn(4) == 0)
-				}
-				// remember what it marshals to as future Unmarshal input (computed outside the recorded history)
-			} else {
-				op.h = strs[r.intn(len(strs))]
-				if r.intn(3) == 0 && len(op.h) > 0 {
-					b := []byte(op.h)
-					b[r.intn(len(b))] = "$,=@a0"[r.intn(6)]
-					op.h = string(b)
-				}
-			}
-			ops = append(ops, op)
-			if op.marshal {
-				if s, err, pan := marshalObs(op.val.Interface()); err == nil && pan == nil {
-					strs = append(strs, s)
-				}
-			}
-		}
+		types, gts, ops, nModelled, _ := c18History(r, nOps, nil)
+		_ = gts
 		// warm run from an empty cache
 		crypthash.VerifResetTypeCache()
 		var warm []histResult
 		for _, op := range ops {
 			warm = append(warm, runHistOp(op, types))
+		}
+		for i, op := range ops {
+			mine := fmt.Sprintf("%x", sha1.Sum([]byte(warm[i].text)))
+			for _, other := range reversed[fmt.Sprintf("%d %d", hI, i)] {
+				rep.bump("other_order_compared")
+				if strings.HasSuffix(other, "="+mine) {
+					continue
+				}
+				rep.fail(map[string]interface{}{"history": hI, "op": i, "type": types[op.ty].String(), "form": formNames[op.form], "marshal": op.marshal, "hash": op.h,
+					"other_process": other[:strings.IndexByte(other, '=')],
+					"value": func() string {
+						if op.marshal {
+							return stableDump(op.val)
+						}
+						return ""
+					}()},
+					"the outcome this call has in a fresh process that runs the history in another order (rev / shuf:k) or runs only this call (only:h:i)", warm[i].text,
+					"the outcome of a call depends on the calls made before it in the process")
+				break
+			}
+			rep.bump("reverse_order_compared")
 		}
 		// cold oracle: the same call right after a cache reset
 		for i, op := range ops {
@@ -218,10 +209,13 @@ func corrC18(outDir string, seed uint64, tier string, replay string) *report {
 		}
 		// the history as one Coq case
 		var descs, calls, obs []string
-		for _, t := range types {
+		for _, t := range types[:nModelled] {
 			descs = append(descs, structDesc(t))
 		}
 		for i, op := range ops {
+			if op.ty >= nModelled {
+				continue // shapes the model does not describe: direct oracles only
+			}
 			if op.marshal {
 				svd, _ := svalDesc(op.val)
 				calls = append(calls, fmt.Sprintf("CMarshal %s %s %s", coqNat(op.ty), formNames[op.form], svd))
@@ -239,4 +233,249 @@ func corrC18(outDir string, seed uint64, tier string, replay string) *report {
 	rep.CaseSets = []string{"C18_hist"}
 	rep.Rule = "operation histories over a pool of 12 struct types (generated, invalid-tag, conflicting, hand shapes), each call in value / pointer / pointer-to-pointer form, Marshal and Unmarshal, success and failure; every call's complete outcome (string, value dump, error type and text) is compared with the same call made right after a cache reset (property oracle), the three forms of a value must marshal alike, and the whole history is replayed on the Coq cache model (outcome projection + pointer depth of the struct named in errors). Non-trivial = not the first call of its history; distinct by (history, position)."
 	return rep
+}
+
+// c18History draws one history: the pool of types (generated, hand shapes; after nModelled come shapes the Coq model
+// does not describe: pointer-receiver text methods, interface-typed fields) and the calls.  Deterministic in r.
+func c18History(r *rng, nOps int, script *[]*string) (types []reflect.Type, gts []*gType, ops []histOp, nModelled int, rec []*string) {
+	for i := 0; i < 5; i++ {
+		g := genWild(r)
+		gts, types = append(gts, g), append(types, g.t)
+	}
+	for i := 0; i < 4; i++ {
+		g := genClass(r)
+		gts, types = append(gts, g), append(types, g.t)
+	}
+	for _, t := range []reflect.Type{reflect.TypeOf(ShapeConflict{}), reflect.TypeOf(ShapeText{}), reflect.TypeOf(ShapeShadow{})} {
+		gts, types = append(gts, nil), append(types, t)
+	}
+	nModelled = len(types)
+	for _, t := range []reflect.Type{reflect.TypeOf(ShapePtrRecv{}), reflect.TypeOf(ShapePtrRecvStruct{}), reflect.TypeOf(ShapeIface{}), reflect.TypeOf(ShapeIface2{})} {
+		gts, types = append(gts, nil), append(types, t)
+	}
+	var strs []string
+	for k := 0; k < nOps; k++ {
+		op := histOp{ty: r.intn(len(types)), form: r.intn(3)}
+		if r.intn(2) == 0 || len(strs) == 0 {
+			op.marshal = true
+			if gts[op.ty] != nil {
+				op.val = genValue(r, gts[op.ty], r.intn(4) == 0)
+			} else {
+				op.val = reflect.New(types[op.ty])
+				fillAny(r, op.val.Elem(), r.intn(4) == 0)
+				fillIfaces(r, op.val.Elem())
+			}
+		} else {
+			op.h = strs[r.intn(len(strs))]
+			if r.intn(3) == 0 && len(op.h) > 0 {
+				b := []byte(op.h)
+				b[r.intn(len(b))] = "$,=@a0"[r.intn(6)]
+				op.h = string(b)
+			}
+		}
+		ops = append(ops, op)
+		if op.marshal {
+			// remember what it marshals to as future Unmarshal input (computed outside the recorded history); the
+			// reverse-order subprocess takes these strings from the parent's script so that it calls nothing before its run
+			var got *string
+			if script != nil {
+				got = (*script)[0]
+				*script = (*script)[1:]
+			} else if s, err, pan := marshalObs(op.val.Interface()); err == nil && pan == nil {
+				got = &s
+			}
+			rec = append(rec, got)
+			if got != nil {
+				strs = append(strs, *got)
+			}
+		}
+	}
+	return
+}
+
+// both text methods on the pointer receiver (a common way to write the pair)
+type PtrCost uint8
+
+func (c *PtrCost) MarshalText() ([]byte, error) { return []byte(fmt.Sprintf("%02d", uint8(*c))), nil }
+func (c *PtrCost) UnmarshalText(b []byte) error {
+	n, err := strconv.ParseUint(string(b), 10, 8)
+	*c = PtrCost(n)
+	return err
+}
+
+type PtrPair struct{ N, R int }
+
+func (p *PtrPair) MarshalText() ([]byte, error) { return []byte(fmt.Sprintf("%dx%d", p.N, p.R)), nil }
+
+type ShapePtrRecv struct {
+	HashPrefix string
+	Cost       PtrCost
+	PC         *PtrCost `hash:"param:pc,omitempty"`
+	Salt       string
+}
+type ShapePtrRecvStruct struct {
+	Params PtrPair
+	Salt   string
+}
+type ShapeIface struct {
+	V interface{} `hash:"param:v"`
+	S string
+}
+type ShapeIface2 struct {
+	HashPrefix string
+	T          encoding.TextMarshaler `hash:"omitempty"`
+	W          interface{}
+	S          string
+}
+
+// fillIfaces gives interface-typed fields dynamic values of several types (marshalers and plain kinds)
+func fillIfaces(r *rng, v reflect.Value) {
+	t := v.Type()
+	for i := 0; i < t.NumField(); i++ {
+		fv := v.Field(i)
+		if fv.Kind() != reflect.Interface || !fv.CanSet() {
+			continue
+		}
+		pc := PtrCost(r.intn(100))
+		var choices []interface{}
+		if t.Field(i).Type.NumMethod() == 0 {
+			choices = []interface{}{Hex16(r.intn(65536)), "s" + r.str(2, "abc"), uint32(r.intn(1000)), RevStr("ab"), &pc, []byte("xy"), nil, int8(-3), Picky("ok")}
+		} else {
+			choices = []interface{}{Hex16(r.intn(65536)), RevStr("cd"), &pc, nil, Picky("ok")}
+		}
+		if c := choices[r.intn(len(choices))]; c != nil {
+			fv.Set(reflect.ValueOf(c))
+		}
+	}
+}
+
+// stableDump prints a value through pointers and interfaces without addresses
+func stableDump(v reflect.Value) string {
+	switch v.Kind() {
+	case reflect.Ptr, reflect.Interface:
+		if v.IsNil() {
+			return "nil"
+		}
+		return "&" + stableDump(v.Elem())
+	case reflect.Struct:
+		var parts []string
+		for i := 0; i < v.NumField(); i++ {
+			parts = append(parts, v.Type().Field(i).Name+":"+stableDump(v.Field(i)))
+		}
+		return v.Type().String() + "{" + strings.Join(parts, " ") + "}"
+	case reflect.Slice:
+		if v.Type().Elem().Kind() == reflect.Uint8 {
+			return fmt.Sprintf("%q", v.Bytes())
+		}
+	}
+	if v.CanInterface() {
+		return fmt.Sprintf("%T(%#v)", v.Interface(), v.Interface())
+	}
+	return fmt.Sprintf("%v", v)
+}
+
+// c18Order is the body of the subprocess: the same histories, each run in reverse order from an empty cache; one line
+// per call with a digest of its complete textual outcome.
+func c18Order(seed uint64, tier string, scriptFile string, mode string) {
+	r := newRng(seed)
+	nHist, nOps := 6, 120
+	if tier == "thorough" {
+		nHist, nOps = 60, 200
+	}
+	var script []*string
+	data, err := os.ReadFile(scriptFile)
+	must(err)
+	must(json.Unmarshal(data, &script))
+	onlyH, onlyI := -1, -1
+	var shuf *rng
+	if strings.HasPrefix(mode, "only:") {
+		fmt.Sscanf(mode, "only:%d:%d", &onlyH, &onlyI)
+	} else if strings.HasPrefix(mode, "shuf:") {
+		var k uint64
+		fmt.Sscanf(mode, "shuf:%d", &k)
+		shuf = newRng(k*7919 + 13)
+	}
+	for hI := 0; hI < nHist; hI++ {
+		types, _, ops, _, _ := c18History(r, nOps, &script)
+		if onlyH >= 0 {
+			if hI == onlyH {
+				res := runHistOp(ops[onlyI], types)
+				fmt.Printf("%d %d %x\n", hI, onlyI, sha1.Sum([]byte(res.text)))
+				return
+			}
+			continue
+		}
+		crypthash.VerifResetTypeCache()
+		order := make([]int, len(ops))
+		for i := range order {
+			order[i] = len(ops) - 1 - i
+		}
+		if shuf != nil {
+			for i := len(order) - 1; i > 0; i-- {
+				j := shuf.intn(i + 1)
+				order[i], order[j] = order[j], order[i]
+			}
+		}
+		for _, i := range order {
+			res := runHistOp(ops[i], types)
+			fmt.Printf("%d %d %x\n", hI, i, sha1.Sum([]byte(res.text)))
+		}
+	}
+}
+
+func c18Reversed(seed uint64, tier string, outDir string, rep *report) map[string][]string {
+	// the script of marshalled strings, from a generation pass of this process
+	r := newRng(seed)
+	nHist, nOps := 6, 120
+	if tier == "thorough" {
+		nHist, nOps = 60, 200
+	}
+	var script []*string
+	for hI := 0; hI < nHist; hI++ {
+		_, _, _, _, rec := c18History(r, nOps, nil)
+		script = append(script, rec...)
+	}
+	data, _ := json.Marshal(script)
+	sf := filepath.Join(outDir, "c18_script.json")
+	must(os.WriteFile(sf, data, 0o644))
+	// children: the histories in reverse order, in three shuffled orders, and single calls as the very first library
+	// call of a process (the truly cold outcome) for a sample of calls
+	modes := []string{"rev", "shuf:1", "shuf:2", "shuf:3"}
+	nOnly := 48
+	if tier == "thorough" {
+		nOnly = 400
+	}
+	pick := newRng(seed ^ 0xC18)
+	for k := 0; k < nOnly; k++ {
+		modes = append(modes, fmt.Sprintf("only:%d:%d", pick.intn(nHist), pick.intn(nOps)))
+	}
+	outs := make([]string, len(modes))
+	errs := make([]error, len(modes))
+	var wg sync.WaitGroup
+	sem := make(chan struct{}, 12)
+	for k, mode := range modes {
+		wg.Add(1)
+		go func(k int, mode string) {
+			defer wg.Done()
+			sem <- struct{}{}
+			defer func() { <-sem }()
+			o, err := exec.Command(os.Args[0], "c18order", fmt.Sprint(seed), tier, sf, mode).Output()
+			outs[k], errs[k] = string(o), err
+		}(k, mode)
+	}
+	wg.Wait()
+	res := map[string][]string{}
+	for k := range modes {
+		if errs[k] != nil {
+			rep.ModelBroken = "order subprocess " + modes[k] + " failed: " + errs[k].Error()
+			return nil
+		}
+		for _, l := range strings.Split(outs[k], "\n") {
+			f := strings.Fields(l)
+			if len(f) == 3 {
+				res[f[0]+" "+f[1]] = append(res[f[0]+" "+f[1]], modes[k]+"="+f[2])
+			}
+		}
+	}
+	return res
 }
